@@ -508,6 +508,19 @@ def srvLine (st : SrvSt) (ts : List Tok) : SrvSt :=
         | some sess => afterObs st st.tmpElec st.tmpMaster sess
         | none => bad st
       | _ => bad st
+    else if c = "conc.result" then
+      let st := bump st
+      -- concurrent run: the harness judged the quiescent election state; RIB closure is not
+      -- expected when a Flush may have overlapped a Modify
+      let st := { st with rs := { st.rs with partialFlush := true, diverged := true } }
+      match args with
+      | [okTok, msg] =>
+        if tokStr okTok == "1" then st.covr "conc.ok"
+        else
+          let m := (strOf msg).getD ""
+          let mon := if (m.splitOn "election id at quiescence").length > 1 || (m.splitOn "primary at quiescence").length > 1 || (m.splitOn "was told").length > 1 then "c05" else "c11"
+          (st.monfail mon m).monfail "c11" m
+      | _ => bad st
     else if c = "hang" then
       let st := bump st
       (st.monfail "c10" "the server did not answer within the watchdog (hang)").diff "hang" "the implementation hung"
